@@ -99,8 +99,11 @@ def x_prog(ctx, case):
         ev = [e.payload for e in log.of("status") if e.payload["test_id"] == program.get("clone_id", "prog.test")]
         statuses = [p["test_status"] for p in ev if p["test_status"] is not None]
         finals = [s for s in statuses if s in FINAL]
+        # (the final status is the LAST event about the test: an attachment sent after it would open the test again
+        # for every stream consumer)
         ok = (len(statuses) >= 2 and statuses[0] == "inprogress" and len(finals) == 1
-              and statuses[-1] == finals[0] and statuses.count("inprogress") == 1)
+              and statuses[-1] == finals[0] and statuses.count("inprogress") == 1
+              and ev[-1]["test_status"] == finals[0])
         ctx.check(ok, "bracket.exactly-one-outcome", lambda: {"statuses": statuses, **detail()})
         outcome = {"fail": "addError", "success": "addSuccess", "skip": "addSkip",
                    "xfail": "addExpectedFailure", "uxsuccess": "addUnexpectedSuccess"}.get(
